@@ -42,10 +42,12 @@ inductive Res (α : Type) where
 /-- the single store primitive: range check; a negative value stored to an unsigned target
     clamps to 0 -/
 def storeChecked (t : Ty) (v : Int) : Res Int :=
-  if t.base == Base.bool then (if v == 0 || v == 1 then .ok v else .undef)   -- only 0/1 are in the fragment
-  else if t.uns && v < 0 then .ok 0
-  else if t.range.1 ≤ v && v ≤ t.range.2 then .ok v
-  else .err .range
+  match t.base with
+  | .bool => if v = 0 ∨ v = 1 then .ok v else .undef       -- only 0/1 are in the fragment
+  | _ =>
+    if t.uns = true ∧ v < 0 then .ok 0
+    else if t.range.1 ≤ v ∧ v ≤ t.range.2 then .ok v
+    else .err .range
 
 /-! ## store -/
 
@@ -126,7 +128,7 @@ def getVar (x : String) : M Val := fun s =>
     | none =>
       match s.globals.find x with
       | some v => (.ok v, s)
-      | none => (.undef, s)
+      | none => (.err .other, s)     -- "Undefined variable": a name that is not in scope is rejected
 
 /-- replace the value of an existing variable (same resolution order) -/
 def putVar (x : String) (v : Val) : M Unit := fun s =>
@@ -185,6 +187,10 @@ def evalUn (op : UnOp) (a : Int) : Res Int :=
   | .bnot => .ok (-a - 1)
 
 /-! ## cells -/
+
+def Cell.ty : Cell → Ty
+  | .int t _ _ => t
+  | .arr t _ _ _ => t
 
 def Cell.isConst : Cell → Bool
   | .int _ _ c => c
@@ -256,19 +262,28 @@ def readRef (r : LRef) : M Int := do
     | none => undefM
   | _, _ => undefM
 
-def writeRef (r : LRef) (n : Int) : M Unit := do
-  let v ← getVar r.x
-  match v, r.f with
+/-- the new value of a variable after storing `n` at (field, indices) -/
+def writeVal (v : Val) (f : Option String) (idxs : List Int) (n : Int) : Res Val :=
+  match v, f with
   | .cell c, none =>
-    let c' ← liftRes (writeCell c r.idxs n)
-    putVar r.x (.cell c')
+    match writeCell c idxs n with
+    | .ok c' => .ok (.cell c')
+    | .err k => .err k
+    | _ => .undef
   | .struct sn fs, some f =>
     match fieldFind fs f with
     | some c =>
-      let c' ← liftRes (writeCell c r.idxs n)
-      putVar r.x (.struct sn (fieldSet fs f c'))
-    | none => undefM
-  | _, _ => undefM
+      match writeCell c idxs n with
+      | .ok c' => .ok (.struct sn (fieldSet fs f c'))
+      | .err k => .err k
+      | _ => .undef
+    | none => .undef
+  | _, _ => .undef
+
+def writeRef (r : LRef) (n : Int) : M Unit := do
+  let v ← getVar r.x
+  let v' ← liftRes (writeVal v r.f r.idxs n)
+  putVar r.x v'
 
 /-! ## rendering -/
 
@@ -307,6 +322,37 @@ def bindParams : List Param → List Int → Res Frame
     | _, .err k => .err k
     | _, _ => .undef
 
+/-! ## declaration and call primitives (every store goes through `storeChecked`) -/
+
+def storeAllR (ty : Ty) : List Int → Res (List Int)
+  | [] => .ok []
+  | v :: vs =>
+    match storeChecked ty v, storeAllR ty vs with
+    | .ok v', .ok r => .ok (v' :: r)
+    | .err k, _ => .err k
+    | _, .err k => .err k
+    | _, _ => .undef
+
+def declInt (static const : Bool) (ty : Ty) (x : String) (v : Int) : M Unit := do
+  let v' ← liftRes (storeChecked ty v)
+  if static then declareStatic x (.cell (.int ty v' const))
+  else declareLocal x (.cell (.int ty v' const))
+
+def declArrInit (const : Bool) (ty : Ty) (x : String) (dims : List Nat) (vs : List Int) : M Unit :=
+  if vs.length != dims.foldl (· * ·) 1 then undefM else do
+    let vs' ← liftRes (storeAllR ty vs)
+    declareLocal x (.cell (.arr ty dims vs' const))
+
+def declDefault (const : Bool) (ty : Ty) (x : String) (dims : List Nat) : M Unit :=
+  declareLocal x (.cell (defaultCell ty dims const))
+
+def declStructVar (sd : StructDef) (x : String) : M Unit := declareLocal x (structVal sd)
+
+/-- enter a call: positional binding into a fresh frame, then run the body there -/
+def enterCall (fn : Func) (args : List Int) (m : M α) : M α := do
+  let fr ← liftRes (bindParams fn.params args)
+  withFrame fn.name fr m
+
 mutual
 
 def evalE (p : Prog) : Nat → Expr → M Int
@@ -344,9 +390,12 @@ def evalE (p : Prog) : Nat → Expr → M Int
     | .tern c a b => do
         let cv ← evalE p fuel c
         if cv != 0 then evalE p fuel a else evalE p fuel b
-    | .call f args => do
-        let avs ← evalEs p fuel args
-        callF p fuel f avs
+    | .call f args =>
+        match findFunc p f with
+        | none => undefM
+        | some fn => do
+          let avs ← evalArgs p fuel (fn.params.map (·.ty)) args
+          callF p fuel f avs
     | .incdec pre inc lv => do
         let r ← evalLV p fuel lv
         let old ← readRef r
@@ -361,6 +410,21 @@ def evalEs (p : Prog) : Nat → List Expr → M (List Int)
       let v ← evalE p fuel e
       let vs ← evalEs p fuel es
       pure (v :: vs)
+
+/-- call arguments: each is evaluated and converted to its parameter's type before the next one is
+    evaluated (left to right, once each) -/
+def evalArgs (p : Prog) : Nat → List Ty → List Expr → M (List Int)
+  | 0, _, _ => oofM
+  | _ + 1, _, [] => pure []
+  | fuel + 1, [], e :: es => do
+      let v ← evalE p fuel e
+      let vs ← evalArgs p fuel [] es
+      pure (v :: vs)
+  | fuel + 1, t :: ts, e :: es => do
+      let v ← evalE p fuel e
+      let v' ← liftRes (storeChecked t v)
+      let vs ← evalArgs p fuel ts es
+      pure (v' :: vs)
 
 /-- resolve an lvalue expression, evaluating its index expressions left to right -/
 def evalLV (p : Prog) : Nat → Expr → M LRef
@@ -384,9 +448,8 @@ def callF (p : Prog) : Nat → String → List Int → M Int
   | fuel + 1, f, args =>
     match findFunc p f with
     | none => undefM
-    | some fn => do
-      let fr ← liftRes (bindParams fn.params args)
-      catchM (withFrame fn.name fr (execSs p fuel fn.body)) fun r =>
+    | some fn =>
+      catchM (enterCall fn args (execSs p fuel fn.body)) fun r =>
         match r with
         | .ok () => pure 0
         | .ret v =>
@@ -410,26 +473,21 @@ def execS (p : Prog) : Nat → Stmt → M Unit
             let v ← (match init with
               | some e => evalE p fuel e
               | none => pure 0)
-            let v' ← liftRes (storeChecked ty v)
-            declareStatic x (.cell (.int ty v' const))
+            declInt true const ty x v
         else do
           let v ← (match init with
             | some e => evalE p fuel e
             | none => pure 0)
-          let v' ← liftRes (storeChecked ty v)
-          declareLocal x (.cell (.int ty v' const))
-    | .declArr const ty x dims init => do
+          declInt false const ty x v
+    | .declArr const ty x dims init =>
         match init with
-        | none => declareLocal x (.cell (defaultCell ty dims const))
+        | none => declDefault const ty x dims
         | some es => do
           let vs ← evalEs p fuel es
-          let n := dims.foldl (· * ·) 1
-          if vs.length != n then undefM else do
-            let vs' ← storeAll ty vs
-            declareLocal x (.cell (.arr ty dims vs' const))
+          declArrInit const ty x dims vs
     | .declStruct sn x =>
         match findStruct p sn with
-        | some sd => declareLocal x (structVal sd)
+        | some sd => declStructVar sd x
         | none => undefM
     | .assign lv e => do
         let v ← evalE p fuel e
@@ -527,13 +585,6 @@ def printItems (p : Prog) : Nat → List PItem → M (List String)
           pure (renderInt v))
       let rest ← printItems p fuel r
       pure (s :: rest)
-
-def storeAll (ty : Ty) : List Int → M (List Int)
-  | [] => pure []
-  | v :: vs => do
-      let v' ← liftRes (storeChecked ty v)
-      let r ← storeAll ty vs
-      pure (v' :: r)
 
 end
 
